@@ -360,6 +360,20 @@ func elligatorSqrtNegAPlusTwo() *big.Int {
 // "ufactor = -non_square * sqrtm1" with non_square = 2).
 func elligatorUFactor() *big.Int { return fNeg(fMul(big2, sqrtM1())) }
 
+// elligatorVFactor is sqrt(U_FACTOR), the non-negative root in the sign
+// convention used throughout (least significant bit clear, RFC 8032 / RFC 9496
+// IS_NEGATIVE, the repository's IsNegative).  The Elligator map normalises the
+// sign of v afterwards, so the choice of root is a matter of definition; the
+// definition is the abs() of the reference implementation.  SelfCheck verifies
+// the closed form 1 - sqrt(-1).
+func elligatorVFactor() *big.Int {
+	r, ok := fSqrt(elligatorUFactor())
+	if !ok {
+		panic("econst: -2*sqrt(-1) is not a square")
+	}
+	return fAbs(r)
+}
+
 // ---------------------------------------------------------------------------
 // scalar field
 
@@ -504,6 +518,7 @@ func selfCheck() (err error) {
 	if x1.Cmp(b.X) != 0 && fNeg(x1).Cmp(b.X) != 0 {
 		bad = append(bad, "sqrt(-486664)*u/v is not ±B.x for the RFC 7748 base point")
 	}
+	eq("sqrt(-2 sqrt(-1)) = 1 - sqrt(-1)", elligatorVFactor(), fSub(big1, sqrtM1()))
 	eq("(A+2)/4 (RFC 7748 a24+1)", fDiv(fAdd(montA, big2), fInt(4)), big.NewInt(121666))
 	// Scalar-field sanity.
 	for _, w := range []uint{52, 29} {
